@@ -131,6 +131,12 @@ static int roundtripMain(const std::vector<std::string>&, std::istream& in, std:
         catch (...) { out << "skip exception\n"; continue; }
         if (!t1->rootNode()) { out << "skip no-root\n"; continue; }
         if (!t1->diagnostics().empty()) { out << "skip diags=" << diagIdsOf(t1.get()) << "\n"; continue; }
+        // a fragment parser (expression / statement category) stops where its construct ends and leaves the rest of the text alone: such a
+        // tree is not "the tree of the text" (C04 is about what is left over), so there is nothing to compare the unparsed text with
+        if (t1->tokenCount() > 2) {
+            auto lastTk = t1->rootNode()->lastToken();
+            if (lastTk.byteOffset_ != t1->tokenAt(t1->tokenCount() - 2).byteOffset_) { out << "skip partial-parse\n"; continue; }
+        }
         KindLister k1(t1.get());
         k1.visit(t1->rootNode());
         if (k1.ambiguous) { out << "skip ambiguity-left\n"; continue; }
